@@ -1371,7 +1371,11 @@ class EEA:
                     tgt = body.func if isinstance(body, ast.Call) else body
                     c = self._exc_class_in(d.module, tgt) if isinstance(tgt, (ast.Name, ast.Attribute)) else None
                     dfn = self.prog.lookup_fullname(c) if c and c.startswith(PKG) else None
-                    if dfn is not None and dfn.kind == "func":
+                    if dfn is None and c is None and isinstance(tgt, (ast.Name, ast.Attribute)):
+                        dd_ = self.prog.resolve_expr(d.module, tgt)
+                        if dd_ is not None and dd_.kind == "func":
+                            dfn = dd_  # a factory function named in the table
+                    if dfn is not None and dfn.kind == "func" and self._factory_classes(dfn.obj, 0):
                         classes |= self._factory_classes(dfn.obj, 0)
                     elif c and self._is_exception_class(c):
                         classes.add(c)
@@ -2218,12 +2222,87 @@ class EEA:
         if (fr.module.relpath, e.lineno) in self.arity_errors():
             self.obligations += 1
             out = self.merge(out, self._one(S.TE, self.site(fr, e, "call-arity", self.arity_errors()[(fr.module.relpath, e.lineno)]), fr))
+        if fullname and fullname.endswith(".get_protocol") and fullname.startswith(PKG) and self._validated_version_read(e, fr):
+            self.discharged.append({"site": self.site(fr, e, "call").loc(), "what": norm(e), "by": "the stored version read here was accepted by get_protocol (a cached, deterministic lookup) before every store into that attribute: the same call cannot fail now"})
+            return out
         targets = I.resolve_call(e, fr, facts=st.facts)
         if self._deferred_generator(e, fr, targets):
             return out  # the generator's body runs where the bound name is iterated (see for_stmt)
         for t in targets:
             out = self.merge(out, self.target_escapes(t, e, st))
         return out
+
+    def _validated_version_read(self, e: ast.Call, fr) -> bool:
+        """`get_protocol(<obj>.<attr> or DEFAULT_PROTOCOL_VERSION)` (derived protocol state): true when every store into
+        an attribute of that name in the package stores None, or a plain name `v` after `get_protocol(v)` returned in the
+        same function (the call dominates the store and `v` is not re-bound), and no constructor call sets the field."""
+        if len(e.args) != 1 or e.keywords:
+            return False
+        a = e.args[0]
+        try:
+            if self.I.folder.fold(fr.module, a) in self.I.versions:
+                return True  # a supported version string, spelled out: the lookup compares well-formed versions only
+        except Exception:  # noqa: BLE001
+            pass
+        if isinstance(a, ast.BoolOp) and isinstance(a.op, ast.Or) and len(a.values) == 2:
+            try:
+                dflt = self.I.folder.fold(fr.module, a.values[1])
+            except Exception:  # noqa: BLE001
+                return False
+            if dflt not in self.I.versions:
+                return False
+            a = a.values[0]
+        if not (isinstance(a, ast.Attribute) and isinstance(a.value, (ast.Name, ast.Attribute))):
+            return False
+        attr = a.attr
+        from .cfg import CFG as _CFG
+
+        n_stores = 0
+        for f in self.prog.all_functions():
+            stores = []
+            for n in self.I.own_nodes(f):
+                if isinstance(n, (ast.Assign, ast.AnnAssign, ast.AugAssign)):
+                    tg = n.targets if isinstance(n, ast.Assign) else [n.target]
+                    if any(isinstance(t, ast.Attribute) and t.attr == attr for t in tg):
+                        stores.append(n)
+                elif isinstance(n, ast.Call) and isinstance(n.func, ast.Name) and n.func.id == "setattr":
+                    return False
+                elif isinstance(n, ast.Call) and any(k.arg == attr for k in n.keywords) and not (isinstance(n.func, ast.Name) and n.func.id in ("field",)):
+                    kv = [k.value for k in n.keywords if k.arg == attr][0]
+                    if not (isinstance(kv, ast.Constant) and kv.value is None):
+                        return False  # handed to a constructor / replace(): not followed here
+            if not stores:
+                continue
+            g = None
+            for stt in stores:
+                n_stores += 1
+                v = getattr(stt, "value", None)
+                if isinstance(v, ast.Constant) and v.value is None:
+                    continue
+                if not isinstance(v, ast.Name) or isinstance(stt, ast.AugAssign):
+                    return False
+                if sum(1 for x in self.I.own_nodes(f) if isinstance(x, ast.Name) and x.id == v.id and isinstance(x.ctx, ast.Store)) > 0:
+                    return False
+                g = g or _CFG(f.node)
+                snodes = g.nodes_where(lambda x, stt=stt: x.contains(stt))
+                calls = [c for c in self.I.own_nodes(f) if isinstance(c, ast.Call) and (self.prog.call_fact(f.module, c) or ("",))[0] and (self.prog.call_fact(f.module, c) or ("",))[0].endswith(".get_protocol") and len(c.args) == 1 and isinstance(c.args[0], ast.Name) and c.args[0].id == v.id]
+                ok = False
+                for c in calls:
+                    cn_ = g.nodes_where(lambda x, c=c: x.contains(c))
+                    if cn_ and snodes and all(any(g.dominates(a_, b_) and a_ is not b_ for a_ in cn_) for b_ in snodes):
+                        ok = True
+                if not ok:
+                    return False
+        # positional construction of a class that has the field (dataclass): not followed
+        for c in self.prog.all_classes():
+            names = [b_.target.id for b_ in c.node.body if isinstance(b_, ast.AnnAssign) and isinstance(b_.target, ast.Name)]
+            if attr in names:
+                idx = names.index(attr)
+                for f in self.prog.all_functions():
+                    for n in self.I.own_nodes(f):
+                        if isinstance(n, ast.Call) and isinstance(n.func, ast.Name) and n.func.id == c.name and len(n.args) > idx:
+                            return False
+        return n_stores > 0
 
     def _is_sync_generator(self, f) -> bool:
         if f.is_async or f.node.decorator_list:
@@ -2723,20 +2802,26 @@ class EEA:
                 for f in fl:
                     if any(d.split("(")[0].split(".")[-1] == "pre_load" for d in f.decorator_names):
                         hooks.append(f)
-        if len(hooks) != 1:
+        if not hooks:
             return None
+        # a hook whose returned mapping is built in a way that is not modelled gives no verdict on the keys it has
+        # (neither "all fields" nor "some missing"): a field deserialiser that reads other fields out of that mapping
+        # stops the rule with an analysis error (see _field_load)
+        unmodelled = ("<unmodelled>", schema.name)
+        if len(hooks) != 1:
+            return unmodelled
         f = hooks[0]
         rets = [n for n in self.I.own_nodes(f) if isinstance(n, ast.Return)]
         if len(rets) != 1 or not isinstance(rets[0].value, ast.Call):
-            return None
+            return unmodelled
         r = rets[0].value
         if not (isinstance(r.func, ast.Name) and r.func.id == "dict" and len(r.args) == 1 and isinstance(r.args[0], ast.Call)):
-            return None
+            return unmodelled
         z = r.args[0]
         from .prov import Canon as _Canon
 
         if not (isinstance(z.func, ast.Name) and z.func.id == "zip" and len(z.args) == 2 and _Canon(self.I, f, "").canon(z.args[0]) == "self.fields" and isinstance(z.args[1], ast.Name)):
-            return None
+            return unmodelled
         lst = z.args[1].id
         guard = False
         # the return is reached only when len(<lst>) equals (is not below) len(self.fields) - whatever the statement
@@ -2806,9 +2891,12 @@ class EEA:
                     # value/data come from the (possibly short / ill-typed) input mapping
                     facts = frozenset()
                     pp = des.positional_params
-                    if self._cur_schema_keys and len(pp) >= 4:
+                    unmodelled = bool(self._cur_schema_keys) and self._cur_schema_keys[0] == "<unmodelled>"
+                    if self._cur_schema_keys and len(pp) >= 4 and not unmodelled:
                         facts = frozenset(("in", repr(k), pp[3]) for k in self._cur_schema_keys)
                     sub = self.escapes(Frame(self.I.make_callee(des, fc), fr.V, (), frozenset(), facts))
+                    if unmodelled and len(pp) >= 4 and any(x == S.KE and site_.kind == "subscript" and site_.text.startswith(pp[3] + "[") for (x, site_) in sub):
+                        raise AnalysisError(f"the mapping returned by the pre_load hook of {self._cur_schema_keys[1]} is not built as dict(zip(self.fields, <list>)): whether it has the keys that {fc.name}._deserialize reads is not modelled")
                     out = self.merge(out, self._through(sub, fr))
             return out
         if d.kind == "external":
